@@ -10,7 +10,7 @@ from .sexp import Sym, S
 SCALARS = [('u8', 1), ('u16', 2), ('u32', 4), ('u64', 8), ('u128', 16), ('i8', 1), ('i16', 2), ('i32', 4),
            ('i64', 8), ('i128', 16), ('bool', 1), ('f32', 4), ('f64', 8)]
 INT_BASES = [('u8', 1, False), ('u16', 2, False), ('u32', 4, False), ('u64', 8, False),
-             ('i8', 1, True), ('i16', 2, True), ('i32', 4, True), ('i64', 8, True)]
+             ('i8', 1, True), ('i16', 2, True), ('i32', 4, True), ('i64', 8, True), ('u128', 16, False), ('i128', 16, True)]
 CCS = ['C', 'cdecl', 'stdcall', 'fastcall', 'thiscall', 'vectorcall', 'system']
 DOC_LINES = [' A doc line', ' second line', ' with "quotes" and \\ backslash', ' x', ' unicode-free text: a+b=c', '  indented']
 
@@ -64,6 +64,7 @@ class Opts:
         self.pub_bases = False
         self.p_priv_item = None      # probability of a private type / enum / function (default: p_priv)
         self.static_fns = True
+        self.p_gap_before_base = 0.25   # a `_: unknown<N>` gap in front of a #[base] field (the base is then not at offset 0)
         self.p_unnamed = 0.06        # probability that an array-typed field is written `_: [T; N]`
         self.p_underscore = 0.0      # probability that a function gets a `_`-prefixed ("internal") name
         self.int_args_only = False   # arguments / returns that travel in one integer register (O4 execution)
@@ -199,7 +200,7 @@ class WorldGen:
         rng, o = self.rng, self.o
         name = self.fresh('E')
         base, bsize, signed = rng.choice(INT_BASES)
-        lo = -(1 << (8 * bsize - 1)) if signed else 0
+        lo = max(-(1 << (8 * bsize - 1)), -(1 << 63)) if signed else 0
         hi = (1 << (8 * bsize - 1)) - 1 if signed else (1 << (8 * bsize)) - 1
         hi = min(hi, (1 << 63) - 2)
         n = rng.choice([1, 2, 3, 4, 5, 8])
@@ -330,7 +331,7 @@ class WorldGen:
                     stmts.append(field(False, pn, ty_arr(ty_id('u8'), need), []))
                 nregions += 1; sole_align = 1
                 off += need
-            elif r < o.p_explicit_addr + o.p_gap and not is_base:
+            elif r < o.p_explicit_addr + o.p_gap and (not is_base or rng.random() < o.p_gap_before_base):
                 g = rng.choice([1, 2, 4, 8]) * (a or 1)
                 stmts.append(field(rng.random() < 0.3, '_', ty_unk(g), docs(rng, o)))
                 nregions += 1; sole_align = 1
